@@ -615,10 +615,13 @@ Section Suite.
   Definition com2 (g x h r n : Z) : outcome Z :=
     let* a := pow_mod g x n in let* b := pow_mod h r n in Ok (Z.rem (a * b) n).
 
-  Definition proof_same_secret (x r1 r2 g1 h1 g2 h2 b n : Z) : M proof_ss :=
-    let+ omega := rand_int 1 (two (l + t) * b - 1) in
-    let+ mu1 := rand_int 1 (two (l + t + s1) * n - 1) in
-    let+ mu2 := rand_int 1 (two (l + t + s2) * n - 1) in
+  (* the challenge is the whole 256-bit digest: the blindings cover challenge * secret (fix F16); s2x: blinding length of the
+     second randomness, chosen by the caller *)
+  Definition ss_t : Z := Z.max t 256.
+  Definition proof_same_secret (x r1 r2 g1 h1 g2 h2 b n s2x : Z) : M proof_ss :=
+    let+ omega := rand_int 1 (two (l + ss_t) * b - 1) in
+    let+ mu1 := rand_int 1 (two (l + ss_t + s1) * n - 1) in
+    let+ mu2 := rand_int 1 (two (l + ss_t + s2x) * n - 1) in
     let+ w1 := lift (com2 g1 omega h1 mu1 n) in
     let+ w2 := lift (com2 g2 omega h2 mu2 n) in
     let ch := hash_int (str_cat [w1; w2]) in
@@ -634,11 +637,11 @@ Section Suite.
     let rhs := Z.rem (a' * b' * iF) n in
     Ok (ch =? hash_int (str_cat [lhs; rhs])).
 
-  Definition proof_of_square (x r1 g h E b n : Z) : M proof_sq :=
+  Definition proof_of_square (x r1 g h E b n s2x : Z) : M proof_sq :=
     let+ r2 := rand_int (- two s * n + 1) (two s * n - 1) in
     let+ F := lift (com2 g x h r2 n) in
     let r3 := r1 - r2 * x in
-    let+ ss := proof_same_secret x r2 r3 g h F h b n in
+    let+ ss := proof_same_secret x r2 r3 g h F h b n s2x in
     mret {| sq_E := E; sq_F := F; sq_ss := ss |}.
 
   Definition verify_of_square (p : proof_sq) (g h n : Z) : outcome bool :=
@@ -687,8 +690,11 @@ Section Suite.
     let+ Ea2 := lift (com2 g xa2 h ra2 n) in
     let+ Eb1 := lift (com2 g (xb1 ^ 2) h rb1 n) in
     let+ Eb2 := lift (com2 g xb2 h rb2 n) in
-    let+ sqa := proof_of_square xa1 ra1 g h Ea1 b n in
-    let+ sqb := proof_of_square xb1 rb1 g h Eb1 b n in
+    (* the square proofs are about x_?_1 < 2^(T/2+1) (sqrt(b - a) + 1) and a second randomness below 2^(s+T+1) n (fix F16) *)
+    let b_sq := two (T / 2 + 1) * (Z.sqrt (b - a) + 1) in
+    let s2_sq := Z.max s2 (s + T + 1) in
+    let+ sqa := proof_of_square xa1 ra1 g h Ea1 b_sq n s2_sq in
+    let+ sqb := proof_of_square xb1 rb1 g h Eb1 b_sq n s2_sq in
     let+ lia := proof_large_interval xa2 ra2 g h b n T in
     let+ lib := proof_large_interval xb2 rb2 g h b n T in
     mret {| wt_Ea1 := Ea1; wt_Ea2 := Ea2; wt_Eb1 := Eb1; wt_Eb2 := Eb2; wt_sqa := sqa; wt_sqb := sqb;
